@@ -168,6 +168,10 @@ class Impl(object):
 
 
 # ------------------------------------------------------------------------------------- generator / comparison
+# C13 names no retry delay: the monitor accepts any delay up to this bound (the code's 1 s is pinned by the model, not by
+# the monitor, so a different back-off breaks the correspondence only); scripts end with a probe of this length
+RECONNECT_BOUND_MS = 120000
+
 CHANS = [b'c1', b'c2', b'c', b'\xc3\xa9', b'', b'c1x']
 
 
@@ -283,6 +287,9 @@ def gen_and_run(rng, tier, ident, secret, profile):
                 do(['close'])
                 continue
             do(['idle'])
+        if profile == 'normal':
+            for _ in range(rng.choice([0, 2, 6])):
+                do(['read'])
         if profile == 'close' and impl.close_task is None:
             do(['close'])
         # bounded completion of close: deliver the loss of whatever the client closed, let time pass
@@ -290,6 +297,11 @@ def gen_and_run(rng, tier, ident, secret, profile):
             if impl.tr is not None and not impl.tr.gone:
                 do(['lost'])
             do(['advance', 5000])
+        else:
+            # liveness probe: if the session is waiting to reconnect, give it ample virtual time
+            impl.attempts = [(f, fa) for f, fa in impl.attempts if not f.done()]
+            if not impl.attempts and (impl.tr is None or impl.tr.gone):
+                do(['advance', RECONNECT_BOUND_MS])
     except Exception:
         impl.close()
         raise
@@ -394,78 +406,17 @@ def sweep_scripts(make_impl, canon_fn, twisted, double=False):
                 if impl.tr is not None and not impl.tr.gone:
                     do(['lost'])
                 do(['advance', 5000])
+            elif not pending() and (impl.tr is None or impl.tr.gone):
+                do(['advance', RECONNECT_BOUND_MS])
         finally:
             impl.close()
         yield plan, events, lines
 
 
-def monitors(res, cfg, events, lines, script):
-    """C11 / C12 / C13 on the implementation trace (independent of the Lean model)"""
-    ident, secret = cfg
-    wanted = set()
-    conns = {}      # k -> dict(inbound, writes)
-    cur = 0
-    attempts_after_close = 0
-    closed = False
-    close_done = False
-    expected_msgs, handed = [], []
-    pending_attempt = False
-    now = 0
-    due = None          # C13 (i): virtual time by which the next connection attempt must have been made
-    in_flight = 0
-    live = False
-    no_reconnect = None
-    loss_delay = 1000 if script.get('client') == 'twisted' else 0
-    app_raised = None
-    for ev, line in zip(events, lines):
-        outs = [o for o in line.split(';') if o]
-        k = ev[0]
-        if k == 'advance':
-            now += int(ev[1])
-        elif k == 'refuse' and in_flight and not closed:
-            in_flight -= 1
-            due = now + 1000
-        elif k == 'accept' and in_flight:
-            in_flight -= 1
-            live = True
-        elif k == 'lost' and live:
-            live = False
-            if not closed:
-                due = now + loss_delay
-        elif k == 'close':
-            due = None
-        if 'T' in outs:
-            in_flight += outs.count('T')
-            due = None
-        if due is not None and now >= due and no_reconnect is None:
-            no_reconnect = (k, now)
-        if k == 'sub':
-            wanted.add(hx(ev[1]))
-        elif k == 'unsub':
-            wanted.discard(hx(ev[1]))
-        elif k == 'accept':
-            cur += 1
-            conns[cur] = {'inbound': b'', 'writes': [], 'wanted_at_ready': None, 'frames_done': 0}
-        elif k == 'data':
-            c = conns[cur]
-            before = c['inbound']
-            c['inbound'] += hx(ev[1])
-        elif k == 'close':
-            closed = True
-        for o in outs:
-            if o.startswith('raised:') and app_raised is None:
-                app_raised = (k, o.split(':')[2])
-            if o == 'T' and closed and k != 'close':
-                attempts_after_close += 1
-            if o == 'closeDone':
-                close_done = True
-            if o.startswith('H:'):
-                handed.append(o[2:])
-            if o.startswith('W'):
-                kk = int(o[1:o.index(':')])
-                conns[kk]['writes'].append((bytes.fromhex(o.split(':', 1)[1]) if not o.split(':', 1)[1].startswith('#') else o, set(wanted), k))
-    # C12: handed == PUBLISH frames of the inbound streams, in order (up to what was read)
+def expected_messages(conns):
+    """the (ident, chan, payload) triples owed to the application, in order, for the inbound bytes so far"""
     from engines.codec import parse_frames
+    expected_msgs = []
     for kk in sorted(conns):
         frames, _ = parse_frames(conns[kk]['inbound'])
         # only what a broker can send is covered: one OP_INFO first, then OP_PUBLISH frames, an OP_ERROR ends the
@@ -486,10 +437,89 @@ def monitors(res, cfg, events, lines, script):
                     expected_msgs.append('%s:%s:%s' % (hexf(i), hexf(c), hexf(p)))
                 except Exception:
                     break
-            elif op in (P.OP_ERROR,):
+            else:
                 break
-            elif op == P.OP_INFO and (len(body) == 0):
-                break
+    return expected_msgs
+
+
+def monitors(res, cfg, events, lines, script):
+    """C11 / C12 / C13 on the implementation trace (independent of the Lean model)"""
+    ident, secret = cfg
+    wanted = set()
+    conns = {}      # k -> dict(inbound, writes)
+    cur = 0
+    attempts_after_close = 0
+    closed = False
+    close_done = False
+    expected_msgs, handed = [], []
+    pending_attempt = False
+    now = 0
+    due = None          # C13 (i): virtual time by which the next connection attempt must have been made
+    in_flight = 0
+    live = False
+    no_reconnect = None
+    loss_delay = 1000 if script.get('client') == 'twisted' else 0
+    app_raised = None
+    reads_issued = 0
+    owed_now = 0
+    withheld = None
+    for idx, (ev, line) in enumerate(zip(events, lines)):
+        outs = [o for o in line.split(';') if o]
+        k = ev[0]
+        if k == 'advance':
+            now += int(ev[1])
+        elif k == 'refuse' and in_flight and not closed:
+            in_flight -= 1
+            due = now + RECONNECT_BOUND_MS
+        elif k == 'accept' and in_flight:
+            in_flight -= 1
+            live = True
+        elif k == 'lost' and live:
+            live = False
+            if not closed:
+                due = now + RECONNECT_BOUND_MS
+        elif k == 'close':
+            due = None
+        if 'T' in outs:
+            in_flight += outs.count('T')
+            due = None
+        if due is not None and now >= due and no_reconnect is None:
+            no_reconnect = (k, now)
+        if k == 'sub':
+            wanted.add(hx(ev[1]))
+        elif k == 'unsub':
+            wanted.discard(hx(ev[1]))
+        elif k == 'accept':
+            cur += 1
+            conns[cur] = {'inbound': b'', 'writes': [], 'wanted_at_ready': None, 'frames_done': 0}
+        elif k == 'data':
+            c = conns[cur]
+            c['inbound'] += hx(ev[1])
+            if script.get('legal'):
+                owed_now = len(expected_messages(conns))
+        elif k == 'close':
+            closed = True
+        for o in outs:
+            if o.startswith('raised:') and app_raised is None:
+                app_raised = (k, o.split(':')[2])
+            if o == 'T' and closed and k != 'close':
+                attempts_after_close += 1
+            if o == 'closeDone':
+                close_done = True
+            if o.startswith('H:'):
+                handed.append(o[2:])
+            if o.startswith('W'):
+                kk = int(o[1:o.index(':')])
+                conns[kk]['writes'].append((bytes.fromhex(o.split(':', 1)[1]) if not o.split(':', 1)[1].startswith('#') else o, set(wanted), k))
+        if k == 'read' and not any(o.startswith('raised:') for o in outs):
+            reads_issued += 1
+        # C12, every message is HANDED: at each quiescent point, a read() the application has issued is still
+        # waiting only when every message received so far has been handed over
+        if script.get('legal') and withheld is None and len(handed) < min(reads_issued, owed_now):
+            withheld = (idx, k, len(handed), reads_issued, owed_now)
+    # C12: handed == PUBLISH frames of the inbound streams, in order (up to what was read)
+    from engines.codec import parse_frames
+    expected_msgs = expected_messages(conns)
     if script.get('legal') and handed != expected_msgs[:len(handed)]:
         res.violation('C12', 'handed-sequence', 'asyncio session: values handed to read() %r are not a prefix of the PUBLISH frames received %r' % (handed[:4], expected_msgs[:4]), script, )
     # C11: per connection, writes are empty before a complete INFO, then AUTH(nonce) + SUBSCRIBE for the wanted set
@@ -529,12 +559,14 @@ def monitors(res, cfg, events, lines, script):
         want = sorted(P.msgsubscribe(ident, ch.decode()) for ch in wanted_then)
         if sorted(subs) != want:
             res.violation('C11', 'resubscribe-set', 'asyncio session: after OP_AUTH on connection %d it subscribed to %d channel(s); the application wants %r' % (kk, len(subs), sorted(wanted_then)), script)
+    if withheld is not None:
+        res.violation('C12', 'message-withheld', 'asyncio session: after event %d (%s) only %d message(s) had been handed to the %d read() call(s) issued although %d complete OP_PUBLISH frame(s) had been received' % withheld, script)
     if app_raised is not None:
         prop = {'read': 'C12', 'close': 'C13'}.get(app_raised[0], 'C11')
         res.violation(prop, 'app-call-raised', 'asyncio session: the application call %s() raised %s' % app_raised, script)
     # C13
     if no_reconnect is not None:
-        res.violation('C13', 'no-reconnect', 'asyncio session made no new connection attempt although the previous connection/attempt failed and the retry delay has passed (event %r at t=%d ms)' % no_reconnect, script)
+        res.violation('C13', 'no-reconnect', 'asyncio session made no new connection attempt within %d s of virtual time after the previous connection/attempt failed (event %r at t=%d ms)' % ((RECONNECT_BOUND_MS // 1000,) + no_reconnect), script)
     if attempts_after_close:
         res.violation('C13', 'attempt-after-close', 'asyncio session made %d connection attempt(s) after close()' % attempts_after_close, script)
     if closed and not close_done:
@@ -591,6 +623,68 @@ def run_sweep(res, drv, make_impl, canon_fn, twisted, prefix, client, double=Fal
                     break
 
 
+def outage_script(make_impl, canon_fn, twisted, n):
+    """C13 'repeatedly': a long outage - n consecutive refused attempts, each followed by ample virtual time - and
+    then a reachable broker.  The client must make a new attempt after every single refusal (however many came
+    before) and authenticate + resubscribe on the connection it finally gets."""
+    impl = make_impl()
+    events, lines = [], []
+
+    def do(ev):
+        events.append(ev)
+        lines.append(canon_fn(impl.event(ev)))
+
+    def pending():
+        impl.attempts = [(f, fa) for f, fa in impl.attempts if not (f.done() if hasattr(f, 'done') else f.called)]
+        return bool(impl.attempts)
+    try:
+        do(['start'] if twisted else ['idle'])
+        do(['sub', hexin(b'c1')])
+        refused = 0
+        while refused < n:
+            if pending():
+                do(['refuse'])
+                refused += 1
+            else:
+                do(['advance', RECONNECT_BOUND_MS])
+                if not pending():
+                    break
+        if not pending():
+            do(['advance', RECONNECT_BOUND_MS])
+        if pending():
+            do(['accept'])
+            do(['data', hexin(enc(P.OP_INFO, p8(b'hp') + b'\x01\x02\x03\x04') + enc(P.OP_PUBLISH, p8(b'alice') + p8(b'c1') + b'after the outage'))])
+            do(['read'])
+    finally:
+        impl.close()
+    return events, lines
+
+
+def run_outage(res, drv, make_impl, canon_fn, twisted, prefix, client, n):
+    events, lines = outage_script(make_impl, canon_fn, twisted, n)
+    script = {'client': client, 'ident': 'me', 'secret': 'secret', 'events': events, 'legal': True, 'outage': n}
+    if twisted:
+        script['policy'] = 'default'
+    before = len(res.violations)
+    monitors(res, ('me', 'secret'), events, lines, script)
+    for v in res.violations[before:]:
+        if twisted:
+            v['what'] = v['what'].replace('asyncio session', 'Twisted service')
+        v['engine'] = res.engine
+    res.evaluations += 1
+    res.note('outage')
+    res.nontriv(['outage-%d-%s' % (n, client)])
+    if drv is not None:
+        drv.ask('%s.reset %s %s' % (prefix, hexin(b'me'), hexin(b'secret')))
+        for idx, (ev, line) in enumerate(zip(events, lines)):
+            mo = drv.ask('%s.ev ' % prefix + ' '.join(str(x) for x in ev))
+            status, _, mline = mo.partition(' ')
+            mline = canon_fn([o for o in mline.split(';') if o])
+            if status != 'ok' or mline != line:
+                res.disagree('%s, long outage (%d refusals), event %d %r' % (client, n, idx, ev[:2]), script, line[:800], mo[:800])
+                break
+
+
 def run(tier, seed, drv, prop=None):
     res = Result('aioclient')
     res.model_used = drv is not None
@@ -603,6 +697,8 @@ def run(tier, seed, drv, prop=None):
         res.sample({'events': script['events'][:14]}, limit=3)
     if prop in (None, 'C13', 'C11'):
         run_sweep(res, drv, lambda: Impl('me', 'secret'), canon, False, 'a', 'asyncio', double=(tier == 'thorough'))
+    if prop in (None, 'C13'):
+        run_outage(res, drv, lambda: Impl('me', 'secret'), canon, False, 'a', 'asyncio', {'quick': 1100, 'thorough': 5000}[tier])
     res.assumptions += [
         'asyncio create_connection is replaced by a scripted attempt (accept / refuse); transports are fakes honouring the selector-transport contract; time is virtual',
         'application calls are injected at quiescent points of the session\'s own tasks',
